@@ -36,6 +36,9 @@ pub trait Rt: Clone + Send + Sync + 'static {
     fn spawn(&self, path: Path, f: Box<dyn FnOnce(Self) -> BoxFuture<'static, ()> + Send>) -> JoinH;
     /// suspend once, waking oneself
     fn yield_now(&self) -> BoxFuture<'static, ()>;
+    /// task-to-task channel `c` of the universe
+    fn chan_send(&self, c: usize, v: u32);
+    fn chan_recv(&self, c: usize) -> BoxFuture<'static, u32>;
     /// hand a join handle to the shell side
     fn export(&self, key: Path, h: JoinH);
     /// the current task enters / leaves a construct that keeps a clone of its waker (`FuturesUnordered`)
@@ -82,6 +85,15 @@ const T_SPAWN: u16 = 1000;
 const T_JOIN: u16 = 2000;
 const T_SELECT: u16 = 3000;
 const T_EXPORT: u16 = 7000;
+const T_KEEP: u16 = 4000;
+
+/// a waker-retaining construct is left on completion *and* when a losing select branch is dropped
+struct Retain<R: Rt>(R);
+impl<R: Rt> Drop for Retain<R> {
+    fn drop(&mut self) {
+        self.0.retaining(false);
+    }
+}
 
 pub fn run<R: Rt>(mut env: TaskEnv<R>, stmts: Vec<Stmt>) -> BoxFuture<'static, TaskEnv<R>> {
     async move {
@@ -131,6 +143,8 @@ pub fn run<R: Rt>(mut env: TaskEnv<R>, stmts: Vec<Stmt>) -> BoxFuture<'static, T
                         env.rt.yield_now().await;
                     }
                 }
+                Stmt::ChanSend(c) => env.rt.chan_send(c as usize % CHANS, env.last),
+                Stmt::ChanRecv(c) => env.last = env.rt.chan_recv(c as usize % CHANS).await,
                 Stmt::StreamLoop(take, body) => {
                     let op = env.next_op(SUB);
                     let mut st = LeafSub::new(env.sink.clone(), op.path.clone(), env.rt.stream(op));
@@ -144,19 +158,11 @@ pub fn run<R: Rt>(mut env: TaskEnv<R>, stmts: Vec<Stmt>) -> BoxFuture<'static, T
                         }
                     }
                 }
-                Stmt::Spawn(body) => {
-                    let child = env.sub(T_SPAWN);
-                    let TaskEnv { path, last, handles, sink, .. } = child;
-                    let h = env.rt.spawn(
-                        path.clone(),
-                        Box::new(move |rt| {
-                            let mut e = TaskEnv::new(rt, sink.clone(), path.clone());
-                            e.last = last;
-                            e.handles = handles;
-                            traced(sink, path, run(e, body).map(|_| ()).boxed())
-                        }),
-                    );
-                    env.handles.push(h);
+                Stmt::Spawn(body) => spawn_child(&mut env, body),
+                Stmt::Fan(n, body) => {
+                    for _ in 0..n {
+                        spawn_child(&mut env, body.clone());
+                    }
                 }
                 Stmt::Join(k) => {
                     if let Some(h) = env.handles.get(k as usize) {
@@ -198,6 +204,27 @@ pub fn run<R: Rt>(mut env: TaskEnv<R>, stmts: Vec<Stmt>) -> BoxFuture<'static, T
                     drop(losers);
                     env.last = winner.last;
                 }
+                Stmt::SelectKeep(bs) => {
+                    if bs.is_empty() {
+                        continue;
+                    }
+                    let mut futs = vec![];
+                    for (i, b) in bs.into_iter().enumerate() {
+                        let e = env.sub(T_KEEP + i as u16);
+                        futs.push(run(e, b));
+                    }
+                    let (winner, _index, losers) = futures::future::select_all(futs).await;
+                    env.last = winner.last;
+                    if !losers.is_empty() {
+                        env.rt.retaining(true);
+                        let guard = Retain(env.rt.clone());
+                        let mut rest: futures::stream::FuturesUnordered<_> = losers.into_iter().collect();
+                        while let Some(e) = rest.next().await {
+                            env.last = env.last.wrapping_add(e.last);
+                        }
+                        drop(guard);
+                    }
+                }
                 Stmt::JoinBig(n) => {
                     let n = n.min(60_000u16.saturating_sub(env.nreq)); // request counters are 16 bit
                     let mut futs = vec![];
@@ -205,13 +232,6 @@ pub fn run<R: Rt>(mut env: TaskEnv<R>, stmts: Vec<Stmt>) -> BoxFuture<'static, T
                         let op = env.next_op(REQ);
                         let fut = env.rt.request(op.clone());
                         futs.push(LeafReq::new(env.sink.clone(), op.path, fut));
-                    }
-                    // left on completion *and* when a losing select branch is dropped
-                    struct Retain<R: Rt>(R);
-                    impl<R: Rt> Drop for Retain<R> {
-                        fn drop(&mut self) {
-                            self.0.retaining(false);
-                        }
                     }
                     env.rt.retaining(true);
                     let guard = Retain(env.rt.clone());
@@ -224,6 +244,21 @@ pub fn run<R: Rt>(mut env: TaskEnv<R>, stmts: Vec<Stmt>) -> BoxFuture<'static, T
         env
     }
     .boxed()
+}
+
+fn spawn_child<R: Rt>(env: &mut TaskEnv<R>, body: Vec<Stmt>) {
+    let child = env.sub(T_SPAWN);
+    let TaskEnv { path, last, handles, sink, .. } = child;
+    let h = env.rt.spawn(
+        path.clone(),
+        Box::new(move |rt| {
+            let mut e = TaskEnv::new(rt, sink.clone(), path.clone());
+            e.last = last;
+            e.handles = handles;
+            traced(sink, path, run(e, body).map(|_| ()).boxed())
+        }),
+    );
+    env.handles.push(h);
 }
 
 /// the root future of a visible task: logs the witness events
@@ -367,4 +402,68 @@ pub fn self_waking_yield() -> BoxFuture<'static, ()> {
         }
     })
     .boxed()
+}
+
+/// A task-to-task channel for the real runtimes: an ordinary, well-behaved user future (unbounded
+/// queue; a pending receiver stores the waker of its *latest* poll and removes it when dropped; a
+/// send wakes every waiting receiver). Owned by the harness, so both API families can use it.
+#[derive(Default)]
+pub struct Chan {
+    st: std::sync::Mutex<ChanState>,
+}
+#[derive(Default)]
+struct ChanState {
+    queue: std::collections::VecDeque<u32>,
+    waiters: Vec<(u64, std::task::Waker)>,
+    next: u64,
+}
+impl Chan {
+    pub fn send(&self, v: u32) {
+        let woken = {
+            let mut st = self.st.lock().unwrap();
+            st.queue.push_back(v);
+            std::mem::take(&mut st.waiters)
+        };
+        for (_, w) in woken {
+            w.wake();
+        }
+    }
+    pub fn recv(self: &Arc<Self>) -> BoxFuture<'static, u32> {
+        let id = {
+            let mut st = self.st.lock().unwrap();
+            st.next += 1;
+            st.next
+        };
+        ChanRecv { ch: self.clone(), id }.boxed()
+    }
+}
+struct ChanRecv {
+    ch: Arc<Chan>,
+    id: u64,
+}
+impl Future for ChanRecv {
+    type Output = u32;
+    fn poll(self: Pin<&mut Self>, cx: &mut Context<'_>) -> Poll<u32> {
+        let mut st = self.ch.st.lock().unwrap();
+        let id = self.id;
+        st.waiters.retain(|(i, _)| *i != id);
+        if let Some(v) = st.queue.pop_front() {
+            return Poll::Ready(v);
+        }
+        st.waiters.push((id, cx.waker().clone()));
+        Poll::Pending
+    }
+}
+impl Drop for ChanRecv {
+    fn drop(&mut self) {
+        let id = self.id;
+        // the waker is dropped outside the lock (dropping a waker may run runtime code)
+        let gone: Vec<_> = {
+            let mut st = self.ch.st.lock().unwrap();
+            let (gone, kept) = std::mem::take(&mut st.waiters).into_iter().partition(|(i, _)| *i == id);
+            st.waiters = kept;
+            gone
+        };
+        drop(gone);
+    }
 }
